@@ -124,10 +124,12 @@ func (s *Sizes) Sizeof(T types.Type) int64 {
 		offsets := s.Offsetsof(fields)
 		a := s.Alignof(T)
 		lsz := s.Sizeof(fields[n-1].Type())
-		if lsz == 0 {
-			lsz = 1
-		}
 		z := offsets[n-1] + lsz
+		if lsz == 0 && z != 0 {
+			// gc adds a byte of padding to a non-zero-sized
+			// struct that ends in a zero-sized field.
+			z++
+		}
 		return align(z, a)
 	case *types.Interface:
 		return s.WordSize * 2
